@@ -49,6 +49,7 @@ type tcpConnectionActorOptions struct {
 type tcpConnectionActor struct {
 	options        tcpConnectionActorOptions
 	conn           net.Conn
+	reader         *bufio.Reader // 连接级读缓冲，跨帧复用，避免丢弃已缓冲的后续帧
 	codec          vivid.Codec
 	envelopHandler NetworkEnvelopHandler
 	advertiseAddr  string
@@ -88,7 +89,10 @@ func (c *tcpConnectionActor) onLaunch(ctx vivid.ActorContext) {
 
 func (c *tcpConnectionActor) onReadConn(ctx vivid.ActorContext) (fatal bool, err error) {
 	// 消息读取
-	reader := bufio.NewReader(c.conn)
+	if c.reader == nil {
+		c.reader = bufio.NewReader(c.conn)
+	}
+	reader := c.reader
 	lengthBuf := make([]byte, 4)
 	if _, err = io.ReadFull(reader, lengthBuf); err != nil {
 		// 对等连接已关闭
